@@ -125,7 +125,9 @@ func devCmd(argv []string) {
 				}
 			}
 			if *dump != "" && strings.Contains(o.Name, *dump) {
-				os.WriteFile("/tmp/govc_dump.smt2", []byte(fr.VC.Query(prelude, o)), 0o644)
+				dp := fmt.Sprintf("/tmp/govc_dump_%d.smt2", os.Getpid())
+				os.WriteFile(dp, []byte(fr.VC.Query(prelude, o)), 0o644)
+				fmt.Printf("       query of %s dumped to %s (other workers share /tmp: the name is per process)\n", o.Name, dp)
 			}
 		}
 		if *verbose {
